@@ -15,7 +15,7 @@ from ..engine import Finding
 
 ID = 'C16'
 TITLE = 'ulist, dictattr and Dict implement ordered set/key algebra without side effects'
-LEAN_FILES = ['Basic', 'USet', 'DictCall', 'USetDriver', 'USetLemmas', 'DictCallLemmas', 'C16']
+LEAN_FILES = ['Basic', 'USet', 'DictCall', 'USetDriver', 'USetLemmas', 'DictCallLemmas', 'DictCallOrder', 'C16']
 RULE = ('distinct protocol lines on which the implementation returned a value or the error the statement prescribes, '
         'excluding operations on an empty ulist / empty mapping with an empty operand')
 TRUSTED = ['correspondence harness (pv.engine, pv.proto) and the generators / operand snapshots of pv.props.c16',
